@@ -2194,6 +2194,12 @@ def validate_meta(
         manager.log(f"Metadata abandoned for {id}: file {path} has different size")
         return None
 
+    if not bazel and path != meta.path:
+        # Cached error messages mention the file by path, and a stub is analyzed differently
+        # from a source file, so an entry written for another path cannot be reused as is.
+        manager.log(f"Metadata abandoned for {id}: file path changed ({meta.path} -> {path})")
+        return None
+
     # Bazel ensures the cache is valid.
     mtime = 0 if bazel else int(st.st_mtime)
     if not bazel and (mtime != meta.mtime or path != meta.path):
